@@ -364,6 +364,16 @@ def run_tendency_sampled(ctx):
   return out
 
 
+def _dimension_clauses():
+  from contracts import equivariance_contracts
+  from vlib.core import rerun_any_replay
+  _rr = rerun_any_replay(run_tendency_sampled, select='explicit')
+  out = equivariance_contracts.dimension_clauses()
+  for c in out:
+    c.replay = _rr
+  return out
+
+
 def clauses(tier, seed):
   fns = [PE + n for n in ('PrimitiveEquations.explicit_terms', 'PrimitiveEquations.implicit_terms', 'PrimitiveEquations.implicit_inverse',
                           'MoistPrimitiveEquations.explicit_terms', 'PrimitiveEquationsSpecs.from_si', 'get_geopotential_diff', 'get_temperature_implicit',
@@ -379,15 +389,17 @@ def clauses(tier, seed):
              replay=rerun_replay(run_shallow_water), group='jax-c', heavy=True),
       Clause('numeric:moist / Held-Suarez / implicit operators / 3-step SIL3 under scale pairs (sampled states)', 'numeric', fns, run_tendency_sampled,
              replay=rerun_replay(run_tendency_sampled), group='jax-d', heavy=True),
-  ]
+  ] + _dimension_clauses()
 
 
 MANIFEST = {
-    'engine': 'leak+jxa',
-    'technique': ('contract-based: deductive AST dataflow contract "no reachable function depends on the default scale except through its specs argument" '
+    'engine': 'pyvc+leak+jxa',
+    'technique': ('contract-based deductive: the explicit tendencies of the dry, moist and shallow-water equations, computed as operator expressions from the real source, are '
+                  'dimensionally homogeneous with dimension [field] / time (length / time / temperature exponents propagated through every operator and constant; no two terms of '
+                  'different dimensions are ever added) -- hence invariant under a change of units; deductive AST dataflow contract "no reachable function depends on the default scale except through its specs argument" '
                   '(re-parsed source, all call sites); polynomial degree proved on the jaxpr and scale-pair identities decided on the unisolvent lattice / '
                   'complete bases; moist, forcing and trajectories sampled'),
     'text': ('other: the no-leak contract is proved for every reachable function and call site (syntactic dataflow); scale-pair equalities are complete over '
              'states per configuration for dry and shallow-water tendencies and linear operators, sampled for moist/forcing/trajectories, bounded over scale pairs.'),
-    'note': 'trusted: name-based call resolution of the AST analysis (conservative for reads), pint, A1/A2, jxa rules.',
+    'note': 'trusted: dimensions assigned to the elementary operators (Laplacian 1/length^2 by its eigenvalue contract, angular derivatives and transforms dimensionless) and to the physical constants; name-based call resolution of the AST analysis (conservative for reads), pint, A1/A2, jxa rules.',
 }
